@@ -4,6 +4,8 @@ package gen
 import (
 	"bytes"
 	"io"
+	"strconv"
+	"strings"
 
 	sut "github.com/samaritan-proxy/samaritan/proc/redis"
 	"pgregory.net/rapid"
@@ -296,4 +298,44 @@ func (c *ChunkReader) Read(p []byte) (int, error) {
 	c.left -= n
 	c.Reads++
 	return n, nil
+}
+
+// HostileInt draws the decimal text of an integer a handler may parse: half of the draws sit within 3 of a limit of a 64-bit
+// (or 63-, 48-, 32-, 31-, 16-bit) integer, the others are small, negative, signed-with-plus, over-long or not a number at all.
+func HostileInt(t *rapid.T, label string) string {
+	switch rapid.IntRange(0, 9).Draw(t, label+".cls") {
+	case 0, 1, 2:
+		// int64 limits
+		base := rapid.SampledFrom([]string{"max", "min", "2^63", "2^64"}).Draw(t, label+".edge")
+		d := uint64(rapid.IntRange(0, 3).Draw(t, label+".d"))
+		switch base {
+		case "max":
+			return strconv.FormatUint(uint64(1<<63-1)-d, 10)
+		case "min":
+			return "-" + strconv.FormatUint(uint64(1<<63)-d, 10)
+		case "2^63":
+			return strconv.FormatUint(uint64(1<<63)+d, 10)
+		default:
+			if d == 0 {
+				return "18446744073709551616"
+			}
+			return strconv.FormatUint(^uint64(0)-d+1, 10)
+		}
+	case 3, 4:
+		bits := rapid.SampledFrom([]uint{15, 16, 31, 32, 47, 48, 62}).Draw(t, label+".bits")
+		d := int64(rapid.IntRange(-3, 3).Draw(t, label+".d"))
+		v := int64(1)<<bits + d
+		if rapid.Bool().Draw(t, label+".neg") {
+			v = -v
+		}
+		return strconv.FormatInt(v, 10)
+	case 5, 6:
+		return strconv.Itoa(rapid.IntRange(-3, 12).Draw(t, label+".small"))
+	case 7:
+		return rapid.SampledFrom([]string{"+1", "-0", "00", "1e3", "0x10", " 1", "1 ", "", "-", "+", "１"}).Draw(t, label+".odd")
+	case 8:
+		return strings.Repeat("9", rapid.IntRange(19, 40).Draw(t, label+".len"))
+	default:
+		return rapid.StringMatching(`-?[0-9]{1,19}`).Draw(t, label+".digits")
+	}
 }
